@@ -109,6 +109,9 @@ def mutations(e, rng):
                 muts.append(('value-top-bit', exprgen.Int(int(nd.arg) ^ (1 << (w - 1)), w)))
             if w == 128:
                 muts.append(('value-bit-64', exprgen.Int(int(nd.arg) ^ (1 << 64), w)))
+            if w > 1 and (int(nd.arg) >> (w - 1)) & 1 and nd.arg.__class__.__name__.startswith('uint'):
+                # the same bit pattern held as a signed constant: whatever == says, equal constants must hash equally
+                muts.append(('signedness', ex.ExprInt(getattr(mi, 'int%d' % w)(int(nd.arg) - (1 << w)))))
             w2 = {1: 8, 8: 16, 16: 32, 32: 64, 64: 32, 128: 64}[w]
             if int(nd.arg) < (1 << min(w, w2)):
                 muts.append(('size', exprgen.Int(int(nd.arg), w2)))
@@ -130,6 +133,14 @@ def mutations(e, rng):
                 muts.append(('start+stop', ex.ExprSlice(nd.arg, nd.start + 1, nd.stop + 1)))
             if nd.start > 0:
                 muts.append(('start', ex.ExprSlice(nd.arg, nd.start - 1, nd.stop)))
+            # windows whose bounds combine to the same number under xor / sum (what a careless digest would mix)
+            for m in (1, 2, 4, 8, 16, 32):
+                s2, t2 = nd.start ^ m, nd.stop ^ m
+                if 0 <= s2 < t2 <= w and (s2, t2) != (nd.start, nd.stop) and t2 - s2 == nd.stop - nd.start:
+                    muts.append(('window-same-xor', ex.ExprSlice(nd.arg, s2, t2)))
+                    break
+            if nd.start >= 1 and nd.stop + 1 <= w and nd.stop - nd.start > 2:
+                muts.append(('window-same-sum', ex.ExprSlice(nd.arg, nd.start - 1, nd.stop + 1)))
         elif k == 'ExprCompose':
             if len(nd.args) >= 2:
                 muts.append(('order', ex.ExprCompose(list(reversed(nd.args)))))
@@ -218,7 +229,7 @@ def check_tree(sh, e, rng, seedtag):
     # --- single-field mutations must compare unequal (or at least have equal hash and value)
     nm = 0
     for k, field, f in mutations(e, rng):
-        if exprgen.canon(f) == c:
+        if exprgen.canon(f) == c and field != 'signedness':
             continue
         nm += 1
         sh.case(('mut', c, k, field, exprgen.canon(f)), cls='mut:%s.%s' % (k, field))
@@ -492,6 +503,9 @@ def fixed_trees():
         ex.ExprOp('parity', ex.ExprOp('-', b, a)), ex.ExprOp('*', b, a, c),
         ex.ExprOp('|', ex.ExprOp('<<', c, a), ex.ExprOp('>>', b, a)),
     ]
+    # constants with the top bit set at every width, and the slices a flags register is cut into
+    out += [ex.ExprOp('+', a, I(0xfffffffb, 32)), ex.ExprOp('^', Id('x8', 8), I(0x80, 8)), ex.ExprOp('&', Id('x16', 16), I(0xffff, 16)),
+            ex.ExprOp('+', Id('q64', 64), I((1 << 64) - 3, 64)), ex.ExprSlice(a, 0, 1), ex.ExprSlice(a, 2, 3), ex.ExprSlice(a, 0, 8), ex.ExprSlice(a, 16, 24), ex.ExprSlice(a, 4, 12)]
     # xmm-sized (128-bit) constants and cells
     x128 = Id('xmm0', 128)
     for v in (0, 1, 1 << 64, 1 << 127, (1 << 128) - 1, 0x0123456789abcdef, (1 << 64) | 5):
